@@ -717,3 +717,58 @@ Lemma sparse_np_object_default_kind :
   sparse_np [VNull; VInt 0; VNull] (VBool false) None
   = Ok (mkobs [[VNull; VNull]; [VNull; VBool false; VNull]] [[0; 2]] [DObj; DObj]).
 Proof. vm_compute. reflexivity. Qed.
+
+(* ---------- Part 4: sessions over several constant / function column objects ---------- *)
+Lemma scol_mat_erase : forall c t, scol_mat (erase_col c) t = scol_mat c t.
+Proof. intros [k n d] t. reflexivity. Qed.
+
+Lemma set_col_map_erase : forall i f g cols,
+  (forall c, erase_col (f c) = g (erase_col c)) ->
+  map erase_col (set_col i f cols) = set_col i g (map erase_col cols).
+Proof.
+  intros i f g cols H. revert i. induction cols as [|c r IH]; intros [|j]; simpl; try reflexivity.
+  - now rewrite H.
+  - now rewrite IH.
+Qed.
+
+Lemma with_cfg_erase : forall cfg c, erase_col (with_cfg cfg c) = with_cfg cfg (erase_col c).
+Proof. intros cfg [[b cfg0|v] n d]; reflexivity. Qed.
+Lemma with_len_erase : forall n c, erase_col (with_len n c) = with_len n (erase_col c).
+Proof. intros n [k m d]; reflexivity. Qed.
+
+Lemma sess_run_erase : forall steps cols t,
+  sess_run (map erase_col cols) t (map erase_step steps) = sess_run cols t steps.
+Proof.
+  induction steps as [|s r IH]; intros cols t; [reflexivity|].
+  destruct s as [c|i|i cfg|i n]; cbn [map erase_step sess_run].
+  - rewrite <- IH. now rewrite map_app.
+  - rewrite nth_error_map. destruct (nth_error cols i) as [c|]; cbn [option_map]; [|reflexivity].
+    rewrite scol_mat_erase. now rewrite IH.
+  - rewrite <- (set_col_map_erase i (with_cfg cfg) (with_cfg cfg)) by apply with_cfg_erase. apply IH.
+  - rewrite <- (set_col_map_erase i (with_len n) (with_len n)) by apply with_len_erase. apply IH.
+Qed.
+
+Lemma scol_mat_pure_ticks : forall c t, pure_col c -> snd (scol_mat c t) = t.
+Proof. intros [[[b|] cfg|v] n d] t H; try reflexivity. destruct H. Qed.
+
+Lemma scol_mat_pure_indep : forall c t u, pure_col c -> fst (scol_mat c t) = fst (scol_mat c u).
+Proof. intros [[[b|] cfg|v] n d] t u H; try reflexivity. destruct H. Qed.
+
+Lemma sess_mat_no_effect : forall cols t i c r,
+  nth_error cols i = Some c -> pure_col c ->
+  sess_run cols t (SMat i :: r) = fst (scol_mat c t) :: sess_run cols t r.
+Proof. intros cols t i c r H P. cbn [sess_run]. rewrite H. now rewrite scol_mat_pure_ticks. Qed.
+
+Lemma set_col_other : forall i j f cols, i <> j -> nth_error (set_col i f cols) j = nth_error cols j.
+Proof.
+  intros i j f cols. revert i j. induction cols as [|c r IH]; intros [|i] [|j] H; simpl; try reflexivity.
+  - now destruct H.
+  - apply IH. intro E. apply H. now f_equal.
+Qed.
+
+Lemma set_col_same : forall i f cols c, nth_error cols i = Some c -> nth_error (set_col i f cols) i = Some (f c).
+Proof.
+  intros i f cols. revert i. induction cols as [|c0 r IH]; intros [|i] c H; simpl in *; try discriminate.
+  - now inversion H.
+  - now apply IH.
+Qed.
